@@ -29,6 +29,7 @@ func init() {
 func runC04(c *eng.Ctx) {
 	p := c.P
 	downSamplingEmitsEverySlot(c)
+	downSamplingStartsFromUnset(c)
 	rollupMarkOnlyForAFlushedTable(c)
 	c.Rule("ATOMIC", vsT+".CommitFamilyEditLog", func() { commitFamilyEditLogAtomic(c) })
 	c.Rule("PROV", "kv{edit log family id = the committing family}", func() { editLogOwnID(c) })
